@@ -150,9 +150,11 @@ CHECKS = {
         "Every (n, include_init, takes_aux, constant_aux, pytree shape, aux shape) combination up to the bound, every window (T, sub_len), "
         "every (inner stepper family incl. 2D/3D, order, n_sub from 0, entry point, Nyquist-free and - for even-order inner steppers - white-noise-like states) is "
         "executed on the real lax.scan code and compared entry by entry with a "
-        "Python-loop model; integer bookkeeping steppers make the comparison exact. Exhaustive inside the bounds, which is the right level for "
-        "scan bookkeeping whose behaviour depends only on these discrete options.",
-        "Trusted: the reference loops (mc/props/C14.py), numpy, JAX itself. Bounds: n<=6 (10 thorough), T<=7 (11), n_sub<=4 (7).",
+        "Python-loop model; integer bookkeeping steppers make the comparison exact. Wrappers around wrappers are explored by an explicit-state BFS over "
+        "wrapper-construction histories (alphabet RepeatedStepper x {0,1,2,3}, terminal ForcedStepper; model state = number of inner applications, "
+        "so commuting histories merge and are diamond-checked on the real outputs; every entry point in every state against the naive loop). "
+        "Exhaustive inside the bounds, which is the right level for scan bookkeeping whose behaviour depends only on these discrete options.",
+        "Trusted: the reference loops (mc/props/C14.py), numpy, JAX itself. Bounds: n<=6 (10 thorough), T<=7 (11), n_sub<=4 (7), wrapper histories of depth 2 (3).",
         "DESIGN.md §4 C14",
     ),
     "C15": (
